@@ -2,7 +2,8 @@
 
 `Process`, `Queue` and `Pipe` as imported by pysmt.solvers.portfolio are replaced by in-process fakes.  Per solve and
 per member a symbolic outcome in {verdict, unknown-exception, crash-exception, dies-silently}, a symbolic arrival
-order, and a symbolic flag "a losing member still manages to report before it is terminated".  Members that report a
+order, a symbolic flag "a losing member still manages to report before it is terminated" and a symbolic flag "members are slow:
+every delivery is preceded by one poll that times out while the members that will still report are running".  Members that report a
 verdict report the same (true) one.  `Queue.get` with nothing left to deliver and no time-out models "blocks
 forever" (Hang).  Post: verdict = truth whenever at least one member reports; an error - not a hang - when none does;
 get_model / get_value afterwards are answered by a live member that reported, and the model satisfies the assertions;
@@ -78,6 +79,7 @@ class FakeQueue(object):
         self.pending = []
         self.built_for = None
         self.late = False
+        self.gap_due = False
 
     def build(self):
         sc = W.scenarios[min(W.solve_no, len(W.scenarios) - 1)]
@@ -97,12 +99,18 @@ class FakeQueue(object):
             else:
                 p.dead = True
         self.late = sc["late"]
+        self.gap_due = sc.get("gap", False)
         self.built_for = W.solve_no
 
     def get(self, block=True, timeout=None):
         if self.built_for != W.solve_no:
             self.build()
+        if self.pending and self.gap_due and timeout is not None:
+            # slow members: the poll times out although members that will still report are running
+            self.gap_due = False
+            raise pyqueue.Empty()
         if self.pending:
+            self.gap_due = W.scenarios[min(W.solve_no, len(W.scenarios) - 1)].get("gap", False)
             p, item = self.pending.pop(0)
             if isinstance(item[1], bool):
                 p.reported_verdict = True
@@ -194,7 +202,7 @@ def decode(v, n):
     return None
 
 
-def scenario_from(code_out, code_ord, late, nmem):
+def scenario_from(code_out, code_ord, late, nmem, gap=False):
     """code_out in [0, 4^nmem): outcome per member; code_ord: index into the permutations of the members"""
     outs = []
     c = code_out
@@ -202,10 +210,10 @@ def scenario_from(code_out, code_ord, late, nmem):
         outs.append(OUTCOMES[c % 4])
         c //= 4
     perms = list(itertools.permutations(range(nmem)))
-    return {"outcomes": outs, "order": list(perms[code_ord]), "late": late}
+    return {"outcomes": outs, "order": list(perms[code_ord]), "late": late, "gap": gap}
 
 
-def body(o1, p1, l1, o2, p2, l2, twin):
+def body(o1, p1, l1, o2, p2, l2, twin, gp=False):
     global W
     nmem = PARAMS.get("members", 2)
     nperm = len(list(itertools.permutations(range(nmem))))
@@ -216,6 +224,7 @@ def body(o1, p1, l1, o2, p2, l2, twin):
         return True
     late1 = True if l1 else False
     late2 = True if l2 else False
+    gap = True if gp else False
     with NoTracing():
         from unittest import mock
         from pysmt import typing as T
@@ -226,7 +235,8 @@ def body(o1, p1, l1, o2, p2, l2, twin):
         env = new_env(dict_model=False)
         W = World()
         W.env = env
-        W.scenarios = [scenario_from(a1, b1, late1, nmem), scenario_from(a2, b2, late2, nmem), scenario_from(a1, b1, late1, nmem)]
+        W.scenarios = [scenario_from(a1, b1, late1, nmem, gap), scenario_from(a2, b2, late2, nmem, gap),
+                       scenario_from(a1, b1, late1, nmem, gap)]
         m = env.formula_manager
         a, b = m.Symbol("a", T.BOOL), m.Symbol("b", T.BOOL)
         Stub = make_stub_class()
@@ -310,15 +320,15 @@ def body(o1, p1, l1, o2, p2, l2, twin):
     return ok
 
 
-def h_port(o1: int, p1: int, l1: bool, o2: int, p2: int, l2: bool) -> bool:
+def h_port(o1: int, p1: int, l1: bool, o2: int, p2: int, l2: bool, gp: bool) -> bool:
     """
     post: _
     """
-    return body(o1, p1, l1, o2, p2, l2, False)
+    return body(o1, p1, l1, o2, p2, l2, False, gp)
 
 
-def h_port_twin(o1: int, p1: int, l1: bool, o2: int, p2: int, l2: bool) -> bool:
+def h_port_twin(o1: int, p1: int, l1: bool, o2: int, p2: int, l2: bool, gp: bool) -> bool:
     """
     post: _
     """
-    return body(o1, p1, l1, o2, p2, l2, True)
+    return body(o1, p1, l1, o2, p2, l2, True, gp)
